@@ -111,6 +111,22 @@ Theorem C19_discovered_sources_kept : forall b pkg c p cands,
 Proof. exact discovered_sources_kept. Qed.
 Print Assumptions C19_discovered_sources_kept.
 
+(* for every combination of project-file and command-line values the effective exclude_dir
+   contains the effective output directory, so the hypothesis above always holds for a
+   configuration that parse_arguments produces: the output directory is never searched *)
+Theorem C19_out_excluded : forall ln dir pkg r,
+  In (out (normalise_cfg ln dir pkg r)) (excl (normalise_cfg ln dir pkg r)).
+Proof. exact out_excluded. Qed.
+Print Assumptions C19_out_excluded.
+
+Theorem C19_discovered_sources_kept_cfg : forall ln dir pkg r b p cands,
+  links_clean ln -> let c := normalise_cfg ln dir pkg r in
+  forall x, discovered c x = true -> x <> out c ->
+  (forall g, graph_dir c = Some g -> ~ under g x) ->
+  forall (f : fs) k n, f x = Some n -> run (firstn k (ford_ops b pkg c p cands)) f x = Some n.
+Proof. exact discovered_sources_kept_cfg. Qed.
+Print Assumptions C19_discovered_sources_kept_cfg.
+
 (* normalise_paths yields an output directory without "." / ".." components *)
 Theorem C19_out_clean : forall ln dir pkg r,
   links_clean ln -> clean (out (normalise_cfg ln dir pkg r)) = true.
